@@ -96,9 +96,13 @@ func main() {
 			tr.Reset()
 		}
 		rnd := rand.New(rand.NewSource(seed*7919 + int64(s)))
-		tc, pipe, err := cs.Serve(dR, fmt.Sprintf("10.2.0.%d:5000", s%200+1),
-			cs.Chunking{Seed: rnd.Int63(), MaxRead: pickMax(rnd), MaxWrite: pickMax(rnd)},
-			cs.Chunking{Seed: rnd.Int63(), MaxRead: pickMax(rnd), MaxWrite: pickMax(rnd)})
+		chc := cs.Chunking{Seed: rnd.Int63(), MaxRead: pickMax(rnd), MaxWrite: pickMax(rnd)}
+		chs := cs.Chunking{Seed: rnd.Int63(), MaxRead: pickMax(rnd), MaxWrite: pickMax(rnd)}
+		slow := false
+		for _, m := range []int{chc.MaxRead, chc.MaxWrite, chs.MaxRead, chs.MaxWrite} {
+			slow = slow || (m > 0 && m <= 100)
+		}
+		tc, pipe, err := cs.Serve(dR, fmt.Sprintf("10.2.0.%d:5000", s%200+1), chc, chs)
 		if err != nil {
 			cs.Fatal("connect: %v", err)
 		}
@@ -107,7 +111,7 @@ func main() {
 		thL.SetDbms(dL)
 		L := newSide("L", dbL, dL, dL, thL)
 		R := newSide("R", dbR, dR, dc.NewSession(), core.NewThread(nil))
-		sc := &script{rnd: rnd, tr: tr, L: L, R: R, model: map[int]int{}, open: map[int]*mtran{}}
+		sc := &script{rnd: rnd, tr: tr, L: L, R: R, model: map[int]int{}, open: map[int]*mtran{}, slowPipe: slow}
 		sc.resetTm()
 		sc.run(steps)
 		sc.finish()
@@ -143,16 +147,17 @@ type mtran struct {
 }
 
 type script struct {
-	rnd    *rand.Rand
-	tr     *vh.Trace
-	L, R   *side
-	step   int
-	model  map[int]int // the driver's own idea of tm (to generate sensible steps only)
-	open   map[int]*mtran
-	nextH  int
-	nops   int
-	npairs int
-	nextA  int
+	rnd      *rand.Rand
+	tr       *vh.Trace
+	L, R     *side
+	step     int
+	model    map[int]int // the driver's own idea of tm (to generate sensible steps only)
+	open     map[int]*mtran
+	nextH    int
+	nops     int
+	npairs   int
+	nextA    int
+	slowPipe bool
 }
 
 // call runs f on one side and classifies the outcome
@@ -667,6 +672,9 @@ func (sc *script) other() {
 		sc.nextA++
 		sizes := []int{0, 1, 4000, 4087, 4096, 8200, 70000, 300000, 900000}
 		n := sizes[r.Intn(len(sizes))]
+		if sc.slowPipe && n > 70000 {
+			n = 8200 + r.Intn(20000) // a few bytes per read/write: keep it short
+		}
 		bigKey++
 		key := 5000 + bigKey
 		payload := strings.Repeat(string(rune('a'+sc.nextA%26)), n)
